@@ -371,12 +371,11 @@ func c09r4(c *Ctx) {
 					}
 				}
 				mod := false
-				ast.Inspect(call.Expr, func(y ast.Node) bool {
-					if be, ok := y.(*ast.BinaryExpr); ok && (be.Op == token.REM || be.Op == token.AND) {
-						mod = true
+				if len(call.Expr.Args) == 1 {
+					if be, ok := prog.StripConv(info, call.Expr.Args[0]).(*ast.BinaryExpr); ok && (be.Op == token.REM || be.Op == token.AND) {
+						mod = true // (PADDING - tail) % PADDING
 					}
-					return true
-				})
+				}
 				okD = guarded || mod
 			}
 		}
